@@ -2,7 +2,9 @@
 
 Annotation streams (one generated expression E, five readings of it by the real pyanalyze)
   ast   : type_from_ast(ast.parse(E))                      vs Lean `astEval`
-  str   : type_from_runtime("E")                           vs Lean `astEval` (string route)
+  str   : type_from_runtime("E")                           vs Lean `astEval` (string route, _DefaultContext.get_name)
+  strg  : type_from_runtime("E", ctx=AnnotationsContext(f.__globals__))   vs Lean `astEval (globalsLookup env)`
+          (the string annotations of a function object: names through Context.get_name_from_globals)
   rt    : type_from_runtime(eval(E))                       vs Lean `rtEval (tnorm E)`
   src   : parameter annotated E in a def of a checked module (signature of the def)   vs Lean `visEval E`
   qsrc  : parameter annotated "E" in a def of a checked module                        vs Lean `visEval (str E)`
@@ -11,7 +13,11 @@ Signature streams (one generated def header)
   def   : signature pyanalyze computes from the def node (a nested def in a checked module)   vs Lean `fromDef`
   insp  : ArgSpecCache.get_argspec(function object imported from a helper module)             vs Lean `fromRuntime`
   inspect: inspect.signature(function object), re-encoded   vs Lean `inspectOf`  (spec validation)
-  calls : the same calls checked next to the nested def and from a module importing the function
+  calls : the same calls (None arguments and well-typed `B()` arguments) checked next to the nested def, for the same def at
+          module level of the checked module, and from a module importing the function
+Names: annotations use names through an explicit environment (Lean `NameEnv`): module-level names shadowing a builtin
+(complex, TimeoutError, Warning), builtin-only, module-only, undefined, bound after the defs — quoted, unquoted, under
+`from __future__ import annotations`, in nested / module-level / imported defs.
 Property search on the implementation: the five readings of E agree up to representation (union member order,
 duplicates, Annotated over a union); the two signatures agree (names, kinds, default presence, annotations, return);
 the same call gets the same verdict in both modules. Value comparison is structural (values.value_to_ty), never str().
@@ -33,6 +39,11 @@ ANCHORS = [
     ("pyanalyze/annotations.py", "_type_from_subscripted_value"),
     ("pyanalyze/annotations.py", "_eval_forward_ref"),
     ("pyanalyze/annotations.py", "_Visitor"),
+    ("pyanalyze/annotations.py", "Context.get_name_from_globals"),
+    ("pyanalyze/annotations.py", "Context.handle_undefined_name"),
+    ("pyanalyze/annotations.py", "_DefaultContext.get_name"),
+    ("pyanalyze/arg_spec.py", "AnnotationsContext.get_name"),
+    ("pyanalyze/name_check_visitor.py", "NameCheckVisitor.resolve_name"),
     ("pyanalyze/annotations.py", "_make_sequence_value"),
     ("pyanalyze/annotations.py", "_make_annotated"),
     ("pyanalyze/annotations.py", "_maybe_typed_value"),
@@ -51,7 +62,9 @@ ANCHORS = [
 RULE = (
     "annotation expressions over the shared class universe: every expression of depth <= 1 over a fixed atom set (classes, None, "
     "Any, NewTypes, bare typing aliases) under every constructor (Optional, Union, |, old/new generics, tuple forms, Unpack/star, "
-    "Literal, type[], Annotated, Final/ClassVar, forward-reference strings), a seeded sample of depth 2, then seeded random depth <= 3; "
+    "Literal, type[], Annotated, Final/ClassVar, forward-reference strings), every kind of name (module-level name shadowing a "
+    "builtin, builtin only, module only, undefined, bound after the def) in every position a lookup happens, a seeded sample of depth 2, "
+    "then seeded random depth <= 3; "
     "expressions typing itself rejects (eval raises) are skipped and counted; def headers: every kind sequence up to 3 parameters with "
     "small annotation/default choices, then seeded random ones with generated annotations, __dunder parameter names and "
     "`from __future__ import annotations`; per header a fixed family of calls. Non-trivial = the expression has a constructor / the header "
@@ -75,7 +88,7 @@ OBJECT = 0
 A_, B_, COLOR, IE_ = V.CID[U.A], V.CID[U.B], V.CID[U.Color], V.CID[U.IE]
 
 NEW_NAME = {
-    OBJECT: "object", INT: "int", BOOL: "bool", FLOAT: "float", G.COMPLEX: "complex", STR: "str", BYTES: "bytes", TUPLE: "tuple",
+    OBJECT: "object", INT: "int", BOOL: "bool", FLOAT: "float", STR: "str", BYTES: "bytes", TUPLE: "tuple",
     LIST: "list", SET: "set", FSET: "frozenset", DICT: "dict", TYPE: "type",
     G.SEQUENCE: "cabc.Sequence", G.ITERABLE: "cabc.Iterable", G.COLLECTION: "cabc.Collection", G.CONTAINER: "cabc.Container",
     G.MAPPING: "cabc.Mapping", G.MUTSEQ: "cabc.MutableSequence", G.ABSSET: "cabc.Set",
@@ -91,19 +104,58 @@ ARITY = {LIST: 1, SET: 1, FSET: 1, DICT: 2, G.SEQUENCE: 1, G.ITERABLE: 1, G.COLL
 NT_NAME = {0: "NT0", 1: "NT1", 2: "NT2"}
 NT_CLS = {0: INT, 1: STR, 2: A_}
 
+# Names used in annotations through a lookup (Lean: AnnExpr.name n). kind: a = module-level name shadowing a builtin,
+# b = builtin only, c = module only, d = defined nowhere, e = bound by the module AFTER the defs, r = bound before the
+# defs and rebound after them (known finding reboundName; only generated when C13_REBOUND=1).
+# targets are NameTarget terms: ("cls", cid) ("nt", n, cid) ("bare", cid) ("anyT",) ("opq", k)
+NAMES = [
+    dict(id=0, text="complex", kind="a", early=("cls", B_), late=("cls", B_), builtin=("cls", G.COMPLEX)),
+    dict(id=1, text="TimeoutError", kind="a", early=("cls", V.CID[U.Cc]), late=("cls", V.CID[U.Cc]), builtin=("opq", 0)),
+    dict(id=2, text="set", kind="b", early=None, late=None, builtin=("cls", SET)),
+    dict(id=3, text="frozenset", kind="b", early=None, late=None, builtin=("cls", FSET)),
+    dict(id=4, text="MyInt", kind="c", early=("cls", INT), late=("cls", INT), builtin=None),
+    dict(id=5, text="MyList", kind="c", early=("bare", LIST), late=("bare", LIST), builtin=None),
+    dict(id=6, text="Undefined1", kind="d", early=None, late=None, builtin=None),
+    dict(id=7, text="Later", kind="e", early=None, late=("cls", V.CID[U.D]), builtin=None),
+    dict(id=8, text="Reb", kind="r", early=("cls", A_), late=("cls", B_), builtin=None),
+    dict(id=9, text="Warning", kind="a", early=("cls", IE_), late=("cls", IE_), builtin=("opq", 1)),
+]
+NAME_TEXT = {n["id"]: n["text"] for n in NAMES}
+REBOUND = os.environ.get("C13_REBOUND") == "1"
+EARLY_NAMES = [n["id"] for n in NAMES if (n["early"] or n["builtin"]) and n["kind"] != "r"]   # usable unquoted
+QUOTED_NAMES = [n["id"] for n in NAMES if n["kind"] not in ("r", "d")]                          # usable inside strings
+UNDEF_NAME, LATER_NAME, REB_NAME = 6, 7, 8
+
 HEADER = (
     "from typing import *\nimport typing\nimport collections.abc as cabc\n"
     "from harness.universe import A, B, Cc, D, Color, IE, NT0, NT1, NT2\n"
+    "complex = B\nTimeoutError = Cc\nWarning = IE\nMyInt = int\nMyList = List\nReb = A\nARGB = B()\n"
 )
+FOOTER = "Later = D\nReb = B\n"
 
 
-def make_ns():
+def _tgt(t):
+    return "anyT" if t == ("anyT",) else "(%s)" % " ".join(str(x) for x in t)
+
+
+def _env_sexp():
+    def layer(key):
+        return " ".join("(%d %s)" % (n["id"], _tgt(n[key])) for n in NAMES if n[key] is not None)
+    return "(env (early %s) (late %s) (builtins %s))" % (layer("early"), layer("late"), layer("builtin"))
+
+
+ENV_SEXP = _env_sexp()
+
+
+def make_ns(late):
     ns = {}
-    exec(HEADER, ns)
+    exec(HEADER + (FOOTER if late else ""), ns)
     return ns
 
 
-NS = make_ns()
+NS_EARLY = make_ns(False)     # what a def statement sees when it is executed
+NS = make_ns(True)            # f.__globals__ / the module scope once the module has been executed
+NS_VALID = dict(NS, Undefined1=int)   # only to ask typing whether the *shape* of an expression is acceptable
 
 LIT_OBJS = [("int", 1), ("int", 0), ("int", -1), ("bool", 1), ("str", "a"), ("str", "ab"), ("bytes", "a"), ("none",),
             ("inst", COLOR, 0), ("inst", IE_, 1)]
@@ -168,6 +220,8 @@ def render(t, top=True):
         inner = render(t[1])
         TEXT2TERM[inner] = t[1]
         s = repr(inner)
+    elif k == "name":
+        s = NAME_TEXT[t[1]]
     else:
         raise ValueError(t)
     return s
@@ -177,7 +231,7 @@ def sexp(t):
     k = t[0]
     if k in ("none", "anyT"):
         return k
-    if k in ("cls", "bare"):
+    if k in ("cls", "bare", "name"):
         return "(%s %d)" % (k, t[1])
     if k == "nt":
         return "(nt %d %d)" % (t[1], NT_CLS[t[1]])
@@ -210,7 +264,7 @@ def tt(x):
     if not isinstance(x, (list, tuple)):
         return x
     h = x[0]
-    if h in ("cls", "bare", "nt"):
+    if h in ("cls", "bare", "nt", "name"):
         return tuple(x)
     if h in ("none", "anyT"):
         return (h,)
@@ -300,8 +354,9 @@ def obj_to_term(o):
 # ------------------------------------------------------------------ generators
 ATOM_CLS = [INT, STR, BOOL, FLOAT, BYTES, OBJECT, LIST, TUPLE, TYPE, DICT, A_, B_, COLOR]
 ATOMS = [("cls", c) for c in ATOM_CLS] + [("none",), ("anyT",), ("nt", 0), ("nt", 2)] + \
-        [("bare", c) for c in (LIST, TUPLE, TYPE, DICT, G.SEQUENCE)]
-CORE_ATOMS = [("cls", INT), ("cls", STR), ("none",), ("anyT",), ("cls", A_), ("nt", 0), ("cls", LIST), ("bare", TUPLE)]
+        [("bare", c) for c in (LIST, TUPLE, TYPE, DICT, G.SEQUENCE)] + [("name", i) for i in EARLY_NAMES]
+CORE_ATOMS = [("cls", INT), ("cls", STR), ("none",), ("anyT",), ("cls", A_), ("nt", 0), ("cls", LIST), ("bare", TUPLE),
+              ("name", 0), ("name", 1)]
 GEN1 = [LIST, SET, FSET, G.SEQUENCE, G.ITERABLE]
 GEN2 = [DICT, G.MAPPING]
 LITS = [[("int", 1)], [("int", 1), ("str", "a")], [("int", 1), ("int", 1)], [("bool", 1), ("int", 1)], [("none",)],
@@ -337,8 +392,58 @@ def tuple_specials():
     return out
 
 
+def name_terms():
+    """Every kind of name (shadowing a builtin, builtin only, module only, undefined, bound after the def) in every
+    position a lookup can happen: whole quoted annotation, inside a quoted expression, a string nested in a generic."""
+    out = []
+    ids = [n["id"] for n in NAMES if n["kind"] != "r" or REBOUND]
+    for i in ids:
+        N = ("name", i)
+        out += [("str", N), ("str", ("gen", True, LIST, [N])), ("str", ("opt", N)), ("str", ("bor", N, ("none",))),
+                ("str", ("gen", False, DICT, [("cls", STR), ("str", N)])), ("gen", False, LIST, [("str", N)]),
+                ("tup", False, [("str", N), ("cls", INT)]), ("typ", False, ("str", N)), ("str", ("tupV", False, N)),
+                ("str", ("union", [N, ("cls", INT), ("name", 2)]))]
+        if i != UNDEF_NAME:   # a ForwardRef suppresses the undefined-name error (annotations.py:507): defined names only
+            out += [("gen", True, LIST, [("str", N)]), ("opt", ("str", N)), ("union", [("str", N), ("cls", INT)]),
+                    ("ann", ("str", N), 1), ("gen", True, DICT, [("str", N), ("str", ("name", LATER_NAME))])]
+        if i == REB_NAME:
+            out += [N, ("gen", True, LIST, [N])]
+    return out
+
+
+def with_undefined(rng, t):
+    """A whole-quoted copy of t in which one atom has become an undefined name."""
+    done = [False]
+
+    def go(x):
+        k = x[0]
+        if done[0]:
+            return x
+        if k in ("cls", "name", "nt", "bare", "anyT", "none") and rng.random() < 0.5:
+            done[0] = True
+            return ("name", UNDEF_NAME)
+        if k == "gen":
+            return ("gen", x[1], x[2], [go(y) for y in x[3]])
+        if k in ("tup", "union"):
+            return (k,) + ((x[1], [go(y) for y in x[2]]) if k == "tup" else ([go(y) for y in x[1]],))
+        if k in ("tupV", "typ"):
+            return (k, x[1], go(x[2]))
+        if k in ("opt", "final", "classvar", "str", "unpack", "star"):
+            return (k, go(x[1]))
+        if k == "ann":
+            return ("ann", go(x[1]), x[2])
+        if k == "bor":
+            return ("bor", go(x[1]), go(x[2]))
+        return x
+
+    r = go(t)
+    if not done[0]:
+        r = ("union", [r, ("name", UNDEF_NAME)])
+    return ("str", r)
+
+
 def exhaustive_terms():
-    out = list(ATOMS) + [("lit", l) for l in LITS] + tuple_specials()
+    out = list(ATOMS) + [("lit", l) for l in LITS] + tuple_specials() + name_terms()
     for a in ATOMS:
         out += unary(a)
     for a in CORE_ATOMS:
@@ -349,7 +454,9 @@ def exhaustive_terms():
 
 def depth2_terms(rng, n):
     base = exhaustive_terms()
-    base = [t for t in base if t[0] not in ("final", "classvar")]
+    # (an undefined name inside a string that typing turns into a ForwardRef is reported by no route: the error is suppressed,
+    #  annotations.py:507; undefined names are only generated where every route must report them)
+    base = [t for t in base if t[0] not in ("final", "classvar") and not _mentions(t, UNDEF_NAME)]
     out = []
     for _ in range(n):
         r = rng.random()
@@ -361,9 +468,12 @@ def depth2_terms(rng, n):
     return out
 
 
-def gen_term(rng, depth, mem=False):
-    """Seeded random term; mostly inside `Supported`."""
+def gen_term(rng, depth, mem=False, quoted=False):
+    """Seeded random term; mostly inside `Supported`. quoted: the term stands inside a string, where names bound after the
+    def may be used."""
     r = rng.random()
+    if quoted and r < 0.06:
+        return ("name", LATER_NAME)
     if mem and r < 0.18 and depth > 0:
         inner = rng.choice([("tupV", False, gen_term(rng, depth - 1)), ("tup", False, [gen_term(rng, depth - 1) for _ in range(rng.randint(1, 2))]),
                             ("tupE", False), ("tupV", True, gen_term(rng, 0))])
@@ -373,7 +483,7 @@ def gen_term(rng, depth, mem=False):
             return ("lit", [rng.choice(LIT_OBJS) for _ in range(rng.randint(1, 3))])
         return rng.choice(ATOMS)
     r = rng.random()
-    sub = lambda: gen_term(rng, depth - 1)
+    sub = lambda: gen_term(rng, depth - 1, quoted=quoted)
     if r < 0.12:
         return ("opt", sub())
     if r < 0.26:
@@ -386,7 +496,7 @@ def gen_term(rng, depth, mem=False):
     if r < 0.6:
         return ("gen", rng.random() < 0.5, rng.choice(GEN2), [sub(), sub()])
     if r < 0.72:
-        return ("tup", rng.random() < 0.4, [gen_term(rng, depth - 1, mem=True) for _ in range(rng.randint(1, 3))])
+        return ("tup", rng.random() < 0.4, [gen_term(rng, depth - 1, mem=True, quoted=quoted) for _ in range(rng.randint(1, 3))])
     if r < 0.77:
         return ("tupV", rng.random() < 0.4, sub())
     if r < 0.79:
@@ -396,7 +506,7 @@ def gen_term(rng, depth, mem=False):
     if r < 0.91:
         return ("ann", sub(), rng.choice([1, 1, 2]))
     if r < 0.97:
-        return ("str", sub())
+        return ("str", gen_term(rng, depth - 1, quoted=True))
     return (rng.choice(["final", "classvar"]), sub())
 
 
@@ -440,8 +550,27 @@ def _rec_ctx(ns):
     return Rec()
 
 
-def _res(fn, ns):
-    ctx = _rec_ctx(ns)
+_CHECKER = []
+
+
+def _globals_ctx(ns):
+    """The context ArgSpecCache uses for the string annotations of a function object: names go through
+    Context.get_name_from_globals(f.__globals__)."""
+    from pyanalyze.arg_spec import AnnotationsContext
+    if not _CHECKER:
+        _CHECKER.append(pya.make_checker())
+
+    class RecG(AnnotationsContext):
+        def show_error(self, message, error_code=None, node=None):
+            self.n = getattr(self, "n", 0) + 1
+
+    c = RecG(_CHECKER[0].arg_spec_cache, ns)
+    c.n = 0
+    return c
+
+
+def _res(fn, ns, mk=None):
+    ctx = (mk or _rec_ctx)(ns)
     try:
         v = fn(ctx)
     except Exception as e:
@@ -459,10 +588,11 @@ def api_routes(E, ns):
         return None
     r_ast, vals["ast"] = _res(lambda ctx: type_from_ast(node, ctx=ctx), ns)
     r_str, vals["str"] = _res(lambda ctx: type_from_runtime(E, ctx=ctx), ns)
+    r_strg, vals["strg"] = _res(lambda ctx: type_from_runtime(E, ctx=ctx), ns, _globals_ctx)
     try:
         for f in typing._cleanups:  # typing caches subscriptions by `==`-keys: an earlier `A | B` would decide the order of `B | A`
             f()
-        obj = eval(E, dict(ns))
+        obj = eval(E, dict(NS_EARLY))     # what the def statement would put into __annotations__
         ok = True
     except Exception as e:
         obj, ok = "EVAL:%s" % type(e).__name__, False
@@ -470,6 +600,7 @@ def api_routes(E, ns):
         r_rt, vals["rt"] = _res(lambda ctx: type_from_runtime(obj, ctx=ctx), ns)
     else:
         r_rt = obj
+    vals["r_strg"] = r_strg
     return r_ast, r_str, r_rt, (obj if ok else None), ok, vals
 
 
@@ -488,6 +619,7 @@ def src_routes(Es, header=HEADER):
             for i, E in enumerate(batch):
                 lines.append("    def g%d(x: %s): pass" % (i, repr(E) if quoted else E))
                 lines.append("    g%d" % i)
+            lines += FOOTER.split("\n")[:-1]
             try:
                 fails, tree, _ = pya.check_source("\n".join(lines) + "\n", annotate=True)
             except Exception as e:
@@ -496,7 +628,7 @@ def src_routes(Es, header=HEADER):
             errs = {}
             internal = set()
             for f in fails:
-                if f["lineno"] is None:
+                if f["lineno"] is None or f["lineno"] <= base or f["lineno"] > base + 2 * len(batch):
                     continue
                 i = (f["lineno"] - base - 1) // 2
                 if f["code"] == "internal_error":
@@ -610,25 +742,25 @@ def canon_res(r):
         return r
     ty = r.split(";")[0]
     if ty == "UNENC":
-        return None
+        return "UNENC"      # a value outside the universe differs from every value inside it
     return canon(parse_ty(ty))
 
 
 # ------------------------------------------------------------------ annotation cases
 def model_lines(terms):
-    return ["ann 0 %s" % sexp(t) for t in terms]
+    return ["ann 0 %s %s" % (ENV_SEXP, sexp(t)) for t in terms]
 
 
 def parse_model(line):
     parts = {}
-    for tok in ("ast", "rt", "vis", "visq", "tn", "S", "D", "R", "def", "insp", "isig"):
+    for tok in ("ast", "strg", "rt", "vis", "visq", "tn", "S", "D", "R", "def", "insp", "isig"):
         key = tok + "="
         i = line.find(key) if line.startswith(key) else line.find(" " + key)
         if i < 0:
             continue
         i = i if line.startswith(key) and i == 0 else i + 1
         j = len(line)
-        for tok2 in ("ast", "rt", "vis", "visq", "tn", "S", "D", "R", "def", "insp", "isig"):
+        for tok2 in ("ast", "strg", "rt", "vis", "visq", "tn", "S", "D", "R", "def", "insp", "isig"):
             k2 = line.find(" " + tok2 + "=", i + 1)
             if k2 >= 0:
                 j = min(j, k2)
@@ -659,7 +791,8 @@ def eval_ann(ctx, terms, with_model=True, origin="gen"):
             ctx.count(1, ann_rejected_by_typing=1)
             continue
         r_ast, r_str, r_rt, obj, _, vals = a
-        impl = {"ast": norm_exc(r_ast), "str": norm_exc(r_str), "rt": norm_exc(r_rt), "src": norm_exc(srcm[i]), "qsrc": norm_exc(qsrcm[i])}
+        impl = {"ast": norm_exc(r_ast), "str": norm_exc(r_str), "strg": norm_exc(vals["r_strg"]), "rt": norm_exc(r_rt),
+                "src": norm_exc(srcm[i]), "qsrc": norm_exc(qsrcm[i])}
         ctx.count(1, ann=1, **{"ann_head_" + t[0]: 1})
         if t[0] not in ("cls", "none", "anyT", "nt", "bare"):
             ctx.nontriv("ann|" + E)
@@ -678,12 +811,12 @@ def eval_ann(ctx, terms, with_model=True, origin="gen"):
             if m["D"] != "-":
                 dcls = m["D"].split(",")[0]
                 ctx.tag("ann_D_" + dcls)
-            mm = {"ast": m["ast"], "str": m["ast"], "rt": m["rt"], "src": m["vis"], "qsrc": m["visq"]}
+            mm = {"ast": m["ast"], "str": m["ast"], "strg": m["strg"], "rt": m["rt"], "src": m["vis"], "qsrc": m["visq"]}
             if not supported:
                 ctx.tag("ann_unsupported")
-            for stream in ("ast", "str", "rt", "src", "qsrc"):
+            for stream in ("ast", "str", "strg", "rt", "src", "qsrc"):
                 iv, mv = impl[stream], mm[stream]
-                if "UNENC" in str(iv):
+                if "UNENC" in str(iv) and not supported:
                     ctx.tag("ann_unencodable")
                     continue
                 # the visitor may show the same annotation error once per pass: compare "some error" only there
@@ -723,7 +856,7 @@ def eval_ann(ctx, terms, with_model=True, origin="gen"):
         if len(ctx.samples) < 6 and i % 211 == 0:
             ctx.sample({"expr": E, "pyanalyze": impl, "model": m})
         if supported and bad:
-            what = "readings of the annotation differ: " + "; ".join("%s=%s" % (k, impl[k]) for k in ("ast", "str", "rt", "src", "qsrc"))
+            what = "readings of the annotation differ: " + "; ".join("%s=%s" % (k, impl[k]) for k in ("ast", "str", "strg", "rt", "src", "qsrc"))
             ctx.candidate(case, what, cls=dcls, conforms=conforms, stream="ann")
 
 
@@ -784,7 +917,7 @@ def sexp_hdr(h):
         " ".join(d(x) for x in h["df"]), sexp(h["ret"]) if h["ret"] is not None else "", int(h["future"]))
 
 
-SMALL_ANN = [None, ("cls", INT), ("str", ("cls", INT)), ("opt", ("cls", STR))]
+SMALL_ANN = [None, ("cls", INT), ("str", ("name", 0)), ("opt", ("cls", STR)), ("name", 0), ("str", ("name", LATER_NAME))]
 SMALL_DFLT = [("int", 1), ("none",), "ell"]
 
 
@@ -865,9 +998,23 @@ def random_header(rng, ann_depth=1):
         r = rng.random()
         if r < 0.25:
             return None
-        t = gen_term(rng, ann_depth)
+        r = rng.random()
+        if r < 0.12:
+            # a name through a lookup: shadowing a builtin, builtin only, module only; quoted / under the future import also
+            # bound after the def or undefined
+            pool = list(EARLY_NAMES)
+            quoted = rng.random() < 0.5
+            if quoted or h["future"]:
+                pool += [LATER_NAME, LATER_NAME, UNDEF_NAME]
+            if REBOUND:
+                pool += [REB_NAME, REB_NAME]
+            t = ("name", rng.choice(pool))
+            if rng.random() < 0.3 and t[1] != UNDEF_NAME:
+                t = rng.choice([("opt", t), ("gen", True, LIST, [t]), ("bor", t, ("none",))])
+            return ("str", t) if quoted else t
+        t = gen_term(rng, ann_depth, quoted=h["future"])
         if rng.random() < 0.15:
-            t = ("str", t)
+            t = ("str", gen_term(rng, ann_depth, quoted=True))
         return t
 
     for i, kd in enumerate(kinds):
@@ -908,7 +1055,10 @@ def calls_for(h):
     if pos:
         out.add(", ".join(["%s=None" % n for n in pos + ko]))
         out.add(", ".join(["None"] * len(pos) + ["%s=None" % n for n in ko] + ["zz=None"]))
-    return sorted(out)
+    # the same shapes with a well-typed argument where a parameter expects the module's class B (`ARGB = B()` in the module):
+    # an annotation resolved to another class shows as a different verdict
+    typed = {c.replace("None", "ARGB") for c in out if "None" in c}
+    return sorted(out) + sorted(typed)
 
 
 def sig_string(sig):
@@ -1055,6 +1205,7 @@ def eval_sig(ctx, headers, with_model=True):
     res_inspect = [None] * len(headers)
     verdict_in = [None] * len(headers)
     verdict_out = [None] * len(headers)
+    verdict_mod = [None] * len(headers)
     runtime = [None] * len(headers)
     B = 250
     for future, allidx in groups.items():
@@ -1069,17 +1220,20 @@ def eval_sig(ctx, headers, with_model=True):
                     hh = headers[i]
                     for _n, _a in hh["po"] + hh["pk"] + hh["ko"] + [x for x in (hh["vp"], hh["vk"]) if x] + [("", hh["ret"])]:
                         if _a is not None:
-                            eval(render(_a) if _a[0] != "star" else "tuple[%s]" % render(_a), dict(NS))
+                            # typing must accept the shape (under the future import nothing evaluates the annotation)
+                            eval(render(_a) if _a[0] != "star" else "tuple[%s]" % render(_a), dict(NS_VALID))
+                            if hh["future"] and _a[0] != "name" and _mentions(_a, UNDEF_NAME, outer_only=True):
+                                raise NameError("undefined name below the top of an unquoted annotation: not modelled")
                     defsrc[i] = render_def(headers[i], "f%d" % i)
                     compile(fut + HEADER + defsrc[i] + "\n", "<c13>", "exec")
-                    exec(fut + HEADER + defsrc[i] + "\n", {"__name__": "c13probe"})
+                    exec(fut + HEADER + defsrc[i] + "\n", {"__name__": "c13probe"})   # NameError for a name not bound yet
                 except Exception as e:
                     res_def[i] = res_insp[i] = "INVALID:%s" % type(e).__name__
                     continue
                 ok_idxs.append(i)
                 body.append(defsrc[i])
             with open(os.path.join(ctx.scratch, modname + ".py"), "w") as f:
-                f.write(fut + HEADER + "\n".join(body) + "\n")
+                f.write(fut + HEADER + "\n".join(body) + "\n" + FOOTER)
             importlib.invalidate_caches()
             H = importlib.import_module(modname)
             # inspect route + the real inspect view
@@ -1104,6 +1258,18 @@ def eval_sig(ctx, headers, with_model=True):
                 for j, c in enumerate(calls[i]):
                     lines.append("    f%d(%s)" % (i, c))
                     where_call[len(lines)] = (i, j)
+            # … and the same defs at module level of the checked module (there the function object is in scope), called in place
+            where_mod = {}
+            for i in ok_idxs:
+                lines.append(defsrc[i].replace("def f%d(" % i, "def m%d(" % i, 1))
+            lines.append("def run2():")
+            for i in ok_idxs:
+                for j, c in enumerate(calls[i]):
+                    lines.append("    m%d(%s)" % (i, c))
+                    where_mod[len(lines)] = (i, j)
+            if not where_mod:
+                lines.append("    pass")
+            lines += FOOTER.split("\n")[:-1]
             from pyanalyze.value import CallableValue
             try:
                 fails, tree, _ = pya.check_source("\n".join(lines) + "\n", annotate=True)
@@ -1118,12 +1284,16 @@ def eval_sig(ctx, headers, with_model=True):
                     v = getattr(n.value, "inferred_value", None)
                     res_def[i] = sig_string(v.signature) if isinstance(v, CallableValue) else "NOCALLABLE:%s" % type(v).__name__
             vin = {i: [set() for _ in calls[i]] for i in ok_idxs}
+            vmod = {i: [set() for _ in calls[i]] for i in ok_idxs}
             internal = set()
             for f in fails:
                 ln = f["lineno"]
                 if ln in where_call:
                     i, j = where_call[ln]
                     vin[i][j].add(f["code"])
+                elif ln in where_mod:
+                    i, j = where_mod[ln]
+                    vmod[i][j].add(f["code"])
                 elif f["code"] == "internal_error" and ln is not None:
                     # attribute to the def on that line
                     for dl, i in where_def.items():
@@ -1136,7 +1306,7 @@ def eval_sig(ctx, headers, with_model=True):
             where2 = {}
             for i in ok_idxs:
                 for j, c in enumerate(calls[i]):
-                    lines2.append("    H.f%d(%s)" % (i, c))
+                    lines2.append("    H.f%d(%s)" % (i, c.replace("ARGB", "H.ARGB")))
                     where2[len(lines2)] = (i, j)
             if len(lines2) == len(HEADER.split("\n")) + 1:
                 lines2.append("    pass")
@@ -1147,19 +1317,19 @@ def eval_sig(ctx, headers, with_model=True):
                     i, j = where2[f["lineno"]]
                     vout[i][j].add(f["code"])
             for i in ok_idxs:
-                verdict_in[i], verdict_out[i] = vin[i], vout[i]
+                verdict_in[i], verdict_out[i], verdict_mod[i] = vin[i], vout[i], vmod[i]
                 fn = getattr(H, "f%d" % i)
                 rt = []
                 for c in calls[i]:
                     try:
-                        eval("f(%s)" % c, {"f": fn})
+                        eval("f(%s)" % c, {"f": fn, "ARGB": H.ARGB})
                         rt.append(True)
                     except TypeError:
                         rt.append(False)
                 runtime[i] = rt
     model = None
     if with_model:
-        model = [parse_model(l) for l in lean.run_driver("C13", ["sig " + sexp_hdr(h) for h in headers])]
+        model = [parse_model(l) for l in lean.run_driver("C13", ["sig %s %s" % (ENV_SEXP, sexp_hdr(h)) for h in headers])]
     for i, h in enumerate(headers):
         if res_def[i] is not None and str(res_def[i]).startswith("INVALID"):
             ctx.count(1, sig_invalid=1)
@@ -1174,22 +1344,22 @@ def eval_sig(ctx, headers, with_model=True):
         dcls, conforms = None, True
         idef, iinsp = norm_exc(res_def[i]), norm_exc(res_insp[i])
         # ---- the property on the implementation
-        sig_bad = ("UNENC" not in str(idef) and "UNENC" not in str(iinsp) and canon_sig(idef) != canon_sig(iinsp))
+        sig_bad = canon_sig(idef) != canon_sig(iinsp)   # a value outside the universe (UNENC) differs from any value inside
         call_bad = []
         if verdict_in[i] is not None:
+            rej = lambda codes: "incompatible_call" in codes or "incompatible_argument" in codes
             for j, c in enumerate(calls_for(h)):
-                a = "incompatible_call" in verdict_in[i][j] or "incompatible_argument" in verdict_in[i][j]
-                b = "incompatible_call" in verdict_out[i][j] or "incompatible_argument" in verdict_out[i][j]
+                a, b, mm_ = rej(verdict_in[i][j]), rej(verdict_out[i][j]), rej(verdict_mod[i][j])
                 ctx.count(1, call=1)
-                if a != b:
-                    call_bad.append((j, c, a, b))
+                if a != b or a != mm_:
+                    call_bad.append((j, c, a, b, mm_))
         if m is not None:
             if m["D"] != "-":
                 dcls = m["D"].split(",")[0]
                 ctx.tag("sig_D_" + dcls)
             for stream, iv, mv in (("def", idef, strip_errs(m["def"])), ("insp", iinsp, strip_errs(m["insp"]))):
-                if "UNENC" in str(iv) or not supported:
-                    ctx.tag("sig_unencodable_or_unsupported")
+                if not supported:
+                    ctx.tag("sig_unsupported")
                     continue
                 ctx.corr(stream)
                 c = cmp_sig(iv, mv)
@@ -1217,11 +1387,12 @@ def eval_sig(ctx, headers, with_model=True):
         if sig_bad:
             ctx.candidate(case, "signature from the def node differs from the signature from the function object: def=%s inspect=%s"
                           % (idef, iinsp), cls=dcls, conforms=conforms, stream="sig")
-        for j, c, a, b in call_bad:
+        for j, c, a, b, mm_ in call_bad:
+            w = lambda x: "rejected" if x else "accepted"
             ctx.candidate(dict(case, call="f(%s)" % c, cpython_binds=runtime[i][j]),
-                          "call f(%s): %s next to the def, %s from the importing module (CPython %s)" % (
-                              c, "rejected" if a else "accepted", "rejected" if b else "accepted",
-                              "binds it" if runtime[i][j] else "raises TypeError"),
+                          "call f(%s): %s next to the nested def, %s for the module-level def in its own module, %s from the "
+                          "importing module (CPython %s)" % (c, w(a), w(mm_), w(b),
+                                                             "binds it" if runtime[i][j] else "raises TypeError"),
                           cls=dcls, conforms=conforms, stream="calls")
 
 
@@ -1280,6 +1451,20 @@ def _strip_tv(v):
 
 
 # ------------------------------------------------------------------ corpus / run
+def _mentions(t, name_id, outer_only=False):
+    """does the term use the name (outer_only: outside string constants)?"""
+    if not isinstance(t, (list, tuple)) or not t:
+        return False
+    if t[0] == "name":
+        return t[1] == name_id
+    if t[0] == "str" and outer_only:
+        return False
+    if t[0] == "lit":
+        return False
+    return any(_mentions(x, name_id, outer_only) or (isinstance(x, list) and any(_mentions(y, name_id, outer_only) for y in x))
+               for x in t[1:])
+
+
 def corpus():
     path = os.path.join(lean.HERE, "corpus", "C13.jsonl")
     anns, sigs = [], []
@@ -1314,7 +1499,13 @@ def gen_all(ctx):
     ctx.extra["exhaustive_part"] = "%d annotation expressions of depth <= 1" % len(anns)
     anns += depth2_terms(rng, ctx.n(3000, 25000))
     for _ in range(ctx.n(2500, 40000)):
-        anns.append(gen_term(rng, rng.choice([2, 2, 3])))
+        t = gen_term(rng, rng.choice([2, 2, 3]))
+        r = rng.random()
+        if r < 0.06:
+            t = with_undefined(rng, t)
+        elif r < 0.14:
+            t = ("str", gen_term(rng, 2, quoted=True))
+        anns.append(t)
     seen, out = set(), []
     for t in anns:
         k = repr(t)
